@@ -157,6 +157,8 @@ impl Prop for C14 {
         };
         st.class(&format!("mode-{mode}"));
         let earley = Earley::new(&bnf);
+        // (input, tree of a fresh parser) for the parser-reuse pass
+        let mut fresh: Vec<(String, Node)> = vec![];
         for tape in &case.g.tapes {
             let mut t2 = tape.clone();
             t2.kind = 0; // sentences
@@ -243,7 +245,36 @@ impl Prop for C14 {
                                "tree": canon_real(&d, &tree, true)})
                     });
                 }
+                fresh.push((r.text.clone(), tree));
             }
+        }
+        // all inputs once more through ONE parser instance: tokens, spans and the layout stored
+        // with every leaf (text and position inside the input buffer) must be those of a fresh
+        // parser, which were checked above
+        {
+            let texts: Vec<&str> = fresh.iter().map(|x| x.0.as_str()).collect();
+            for (k, item) in dynp::lr_parse_session(&texts, RunOpts::default(), LR_STEPS * 4).into_iter().enumerate() {
+                st.sub();
+                let ctx = || format!("grammar:\n{text}\none parser instance parsed, in order: {:?}\ninput #{k}: {:?}", &texts[..=k], texts[k]);
+                match item {
+                    Err(p) => return panic_outcome(&format!("reused-parser|parse|{mode}"), &p),
+                    Ok(Err(e)) => {
+                        return Outcome::fail(
+                            format!("reused-parser|sentence-rejected-with-layout|{mode}"),
+                            format!("{}\nerror {:?} {}", ctx(), e.span, e.message),
+                        )
+                    }
+                    Ok(Ok(t)) => {
+                        if t != fresh[k].1 {
+                            return Outcome::fail(
+                                format!("reused-parser|tree-or-layout-differs|{mode}"),
+                                format!("{}\nreused: {:?}\nfresh : {:?}", ctx(), t, fresh[k].1),
+                            );
+                        }
+                    }
+                }
+            }
+            st.class("reused-parser-session");
         }
         dynp::uninstall();
         Outcome::Pass
